@@ -1,0 +1,35 @@
+//go:build verif
+
+package api
+
+import (
+	"net/http"
+	"time"
+)
+
+// This file is only compiled with the "verif" build tag. It gives external
+// verification harnesses the observation points that in-package tests have.
+
+// VerifMainHandler returns the handler that the API server serves.
+func VerifMainHandler() http.Handler {
+	return &mainHandler{mux: mainMux}
+}
+
+// VerifExpireSessions marks all current sessions as expired.
+func VerifExpireSessions() {
+	sessionsLock.Lock()
+	defer sessionsLock.Unlock()
+
+	for _, sess := range sessions {
+		sess.Lock()
+		sess.validUntil = time.Now().Add(-time.Hour)
+		sess.Unlock()
+	}
+}
+
+// VerifSessionCount returns the number of registered sessions.
+func VerifSessionCount() int {
+	sessionsLock.Lock()
+	defer sessionsLock.Unlock()
+	return len(sessions)
+}
